@@ -113,8 +113,13 @@ var curatedGrammars = []string{
 	"s = x? y* L(z,COMMA)?; x = X; y = Y; z = Z",
 	// left / right / middle recursion, nullable at start / middle / end
 	"s = s A | @empty", "s = A s | @empty", "s = A s B | @empty", "s = n A n B n; n = N | @empty",
+	// an absent x* / x*! / x? right after a value of the SAME Go type (stack neighbour of identical type)
+	"s = A+ B* SEMI", "s = A+ A* B", "s = item+ extra* SEMI; item = A; extra = B", "s = L(a,COMMA) b*! SEMI; a = A; b = B | B B",
+	"s = A* B* C*", "s = x? y? z?; x = A; y = B; z = C", "s = A B? C | A A? A",
 	// list sugar in every position, shared helpers, *! filtering
 	"s = A* B+ C? A*", "s = L(a,COMMA) SEMI L(a,COMMA)?; a = A | B", "s = t*! u+; t = A | B B; u = C",
+	// names: rule names that sort before token names (worklist order in ConstructLALR), nesting with a self-loop state
+	"Doc = Expr; Expr = OPEN Expr CLOSE | NUM", "Aa = Bb ZZ | YY Bb XX; Bb = WW Bb VV | UU | @empty",
 	// classic: LALR(1) but not SLR(1); expression grammar without precedence
 	"s = l EQ r | r; l = STAR r | ID; r = l", "e = e PLUS t | t; t = t STAR f | f; f = LP e RP | ID",
 	// long single production: table rows with two-digit states and terminals (row sharing keys)
